@@ -49,6 +49,8 @@ ALLOWED_SUBST = {
     "iter_named_self0": (r"\bfor\s+(\w+)\s+in\s+&self\.0\b", r"for \1 in it: self.0.iter()",
                          "`for x in &self.0` -> `for x in it: self.0.iter()` (same desugaring: <&Vec as IntoIterator>::into_iter "
                          "== iter(); `it:` is Verus' ghost name for the iterator)"),
+    "iter_named_self0_iter": (r"\bfor\s+(\w+)\s+in\s+self\.0\.iter\(\)", r"for \1 in it: self.0.iter()",
+                              "`for x in self.0.iter()` -> `for x in it: self.0.iter()` (`it:` is Verus' ghost name for the iterator)"),
     "iter_ref_vec": (r"\bfor\s+(\w+)\s+in\s+&self\.0\b", r"for \1 in self.0.iter()",
                      "`for x in &self.0` -> `for x in self.0.iter()` (same desugaring: <&Vec as IntoIterator>::into_iter == iter())"),
     "iter_ref_field": (r"\bfor\s+(\w+)\s+in\s+&self\.(\w+)\b", r"for \1 in self.\2.iter()",
@@ -60,6 +62,9 @@ ALLOWED_SUBST = {
                             "`&mut (**self)[range]`, deref_mut == as_mut_slice; vstd specifies the slice form only)"),
     "phantom_fn": (r"PhantomData<fn\(\) -> (\w+)>", r"PhantomData<\1>",
                    "`PhantomData<fn() -> P>` -> `PhantomData<P>` (variance marker only; Verus has no fn-pointer types)"),
+    "temp_guard_rotate": (r"(?m)^(\s*)state\.populations_mut\(\)\.rotate\(self\.n\);", r"\1let mut verif_tmp = state.populations_mut(); verif_tmp.rotate(self.n);",
+                          "`state.populations_mut().rotate(n);` -> `let mut verif_tmp = state.populations_mut(); verif_tmp.rotate(n);` "
+                          "(names the temporary guard so its final value can be asserted; same evaluation order)"),
     "fn_ptr_call": (r"\(self\.(\w+)\)\(", r"fnptr_call_\1(&self.\1, ",
                     "call through fn-pointer field -> mirrored call with abstract contract"),
     "plus_eq_deref": (r"\*([^;\n]*?)\?\s*\+=\s*1;", r"incr_u32(\1?);",
@@ -179,10 +184,15 @@ def extract_struct(relpath, name, rw):
     return text
 
 
-def extract_implhdr(relpath, header, rehome, rw):
+def extract_implhdr(relpath, header, rehome, rw, dropgen=False, as_text=None):
     src, masked = _read(relpath)
     a, ob, _ = rustlex.find_impl(src, masked, header)
     hdr = rustlex.norm(src[a:ob])
+    if as_text:
+        rw.add("impl-header-respecified",
+               "trait-impl header re-stated as an inherent impl with impl-level generics/bounds that the self type does "
+               "not mention moved onto the method: `" + hdr + "` -> `" + as_text + "`")
+        return as_text + " {"
     if rehome:
         # impl<G> Trait<..> for Type<..> [where ..]  ->  impl<G> Type<..> [where ..]
         m = re.match(r"^(impl(?:<.*?>)?)\s+(.+?)\s+for\s+(.+)$", hdr)
@@ -192,7 +202,10 @@ def extract_implhdr(relpath, header, rehome, rw):
         g = _split_impl_generics(hdr)
         rest = hdr[len(g):].strip()
         mm = re.match(r"^(.+?)\s+for\s+(.+)$", rest)
-        hdr = f"{g} {mm.group(2)}"
+        hdr = f"{g} {mm.group(2)}" if not dropgen else f"impl {mm.group(2)}"
+        if dropgen:
+            rw.add("impl-generics-moved", "impl-level generics that the self type does not mention are moved onto the method "
+                   "(`impl<P: X> Tr<P> for T { fn f(..) }` -> `impl T { fn f<P: X>(..) }`)")
         rw.add("trait-impl-rehomed",
                "trait-impl method re-homed as inherent method of the same type (header rewrite only; "
                "Verus does not allow a trait impl to strengthen the trait's contract)")
@@ -291,6 +304,17 @@ def extract_fn(relpath, impl_header, name, opts, spec_text, loops, hints, substs
 
     if "ret" in opts:
         sig = _name_return(sig, sig_masked, opts["ret"], rw)
+    if "addgen" in opts:
+        m = re.search(r"\bfn\s+" + re.escape(name) + r"\s*(<)?", sig)
+        if m.group(1):
+            sig = sig[:m.end()] + opts["addgen"] + ", " + sig[m.end():]
+        else:
+            sig = sig[:m.end()] + "<" + opts["addgen"] + ">" + sig[m.end():]
+    if "addwhere" in opts:
+        if re.search(r"\bwhere\b", rustlex.mask(sig)):
+            sig = sig.rstrip().rstrip(",") + ",\n        " + opts["addwhere"] + ","
+        else:
+            sig = sig.rstrip() + "\n    where " + opts["addwhere"] + ","
     if opts.get("novis"):
         sig2 = re.sub(r"^\s*pub(\s*\([^)]*\))?\s+", "", sig)
         if sig2 != sig:
@@ -331,6 +355,34 @@ def find_closures(masked_body):
             k += 1
         out.append((bar_end, k))
     return out
+
+
+def _fn_exists(relpath, impl_header, name):
+    src, masked = _read(relpath)
+    try:
+        if impl_header in ("-", ""):
+            rustlex.find_fn(src, masked, name, 0, None, 0)
+        else:
+            _, iob, icb = rustlex.find_impl(src, masked, impl_header)
+            rustlex.find_fn(src, masked, name, iob + 1, icb, 0)
+        return True
+    except AnchorError:
+        return False
+
+
+def check_inventory(relpath, impl_header, allowed):
+    """Every fn defined directly in the impl block must be listed (under contract or declared irrelevant)."""
+    src, masked = _read(relpath)
+    _, iob, icb = rustlex.find_impl(src, masked, impl_header)
+    depths = rustlex.brace_depths(masked, iob + 1, icb)
+    found = []
+    for m in re.finditer(r"\bfn\s+(\w+)", masked[iob + 1:icb]):
+        if depths[m.start()] == 0:
+            found.append(m.group(1))
+    extra = [f for f in found if f not in allowed]
+    if extra:
+        raise AnchorError(f"INVENTORY: {relpath} :: {impl_header} defines function(s) not under contract: {extra}")
+    return found
 
 
 class Expanded:
@@ -398,11 +450,16 @@ def expand(template_path):
                         raise AnchorError(f"struct {name}: substitution {key!r} did not apply")
                     ex.rewrites.add("subst:" + key, note, n)
             ex.lines.extend(stext.split("\n"))
+        elif s.startswith("//@inventory "):
+            parts = [x.strip() for x in s[len("//@inventory "):].split(" :: ")]
+            fns = check_inventory(parts[0], parts[1], [x.strip() for x in parts[2].split(",")])
+            ex.lines.append(f"// ---- inventory ok: {parts[0]} :: {parts[1]} defines {fns}")
         elif s.startswith("//@implhdr "):
             parts = [x.strip() for x in s[len("//@implhdr "):].split(" :: ")]
             f, hdr = parts[0], parts[1]
             ex.lines.append(f"// ---- impl header from {f}")
-            ex.lines.append(extract_implhdr(f, hdr, "rehome" in parts[2:], ex.rewrites))
+            as_text = next((o[3:] for o in parts[2:] if o.startswith("as=")), None)
+            ex.lines.append(extract_implhdr(f, hdr, "rehome" in parts[2:], ex.rewrites, "dropgen" in parts[2:], as_text))
         elif s.startswith("//@fn "):
             parts = [x.strip() for x in s[len("//@fn "):].split(" :: ")]
             f, hdr, name = parts[0], parts[1], parts[2]
@@ -443,6 +500,9 @@ def expand(template_path):
                 i += 1
             if i >= len(tl):
                 raise AnchorError(f"{template_path}: //@fn {name} without //@endfn")
+            if opts.get("optional") and not _fn_exists(f, hdr, name):
+                i += 1
+                continue
             text = extract_fn(
                 f, hdr, name, opts, "\n".join(spec),
                 [(k, "\n".join(b)) for k, b in loops],
